@@ -8,6 +8,7 @@ CONSTANTS
   Forms <- AllForms
   SubRuns <- Yes
   Founds <- AllFounds
+  Faults <- Yes
 INVARIANT TypeOK
 INVARIANT Recoverable
 PROPERTY DeleteGuard
